@@ -104,7 +104,8 @@ structure PairIn where
   (pi hbar ev2hrt : Float)
   (charge : Float)
   (e1 e2 : Float)             -- site energies of segment 1 and 2
-  (reorg12 reorg21 : Float)
+  (inner12 inner21 : Float)   -- pair.getReorg12 / getReorg21: inner-sphere reorganisation energies
+  (lambdaO : Float)           -- outer-sphere reorganisation energy of the pair
   (r : Float × Float × Float) -- pair.R()
   (f : Float × Float × Float) -- field
   (kT : Float)
@@ -118,7 +119,7 @@ def deltaG (p : PairIn) : Float :=
 
 def pairRates (p : PairIn) : Float × Float :=
   let dG := deltaG p
-  (Votca.Gen.Marcus.marcusrateF p.pi p.hbar p.ev2hrt p.j2 dG p.reorg12 p.kT,
-   Votca.Gen.Marcus.marcusrateF p.pi p.hbar p.ev2hrt p.j2 (-dG) p.reorg21 p.kT)
+  (Votca.Gen.Marcus.marcusrateF p.pi p.hbar p.ev2hrt p.j2 dG (Votca.Gen.Marcus.reorg12F p.inner12 p.lambdaO) p.kT,
+   Votca.Gen.Marcus.marcusrateF p.pi p.hbar p.ev2hrt p.j2 (-dG) (Votca.Gen.Marcus.reorg21F p.inner21 p.lambdaO) p.kT)
 
 end Votca.C14
